@@ -59,6 +59,8 @@ GPG_SETS = [
     {"gpg_owner": "sign", "root_variant": "sig_nibble", "vary_keys": False, "p_sub": 0.0},
     {"gpg_owner": "sign", "root_variant": "unsigned", "vary_keys": False, "p_sub": 0.0},
     {"gpg_owner": "sign", "root_variant": "expired", "vary_keys": False, "p_sub": 0.0},
+    {"gpg_owner": "expired", "root_variant": "honest", "vary_keys": False, "deviate": False, "p_sub": 0.0},
+    {"gpg_owner": "expired", "root_variant": "edited", "vary_keys": False, "p_sub": 0.0},
     {"gpg_owner": "other", "root_variant": "honest", "vary_keys": False, "deviate": False, "p_sub": 0.0},
     {"gpg_owner": "supply", "root_variant": "honest", "root_dsse": True, "vary_keys": False, "deviate": False, "p_sub": 0.0},
     {"gpg_owner": "supply", "root_variant": "honest", "root_dsse": False, "vary_keys": False, "deviate": False, "p_sub": 0.0},
@@ -195,7 +197,7 @@ def run(ctx):
     if thorough:
         g, _ = vcore.run_scenarios(ctx, GPG_SETS, 120, use_gpg=True, each=make_each(6), model=False)
     else:
-        g, _ = vcore.run_scenarios(ctx, [o for o in GPG_SETS if not o.get("sweep")], 16, use_gpg=True, model=False)
+        g, _ = vcore.run_scenarios(ctx, [o for o in GPG_SETS if not o.get("sweep")], 22, use_gpg=True, model=False)
     recs.extend(g)
     model = vcore.run_model(recs)
 
@@ -229,6 +231,17 @@ def run(ctx):
         ctx.violation("layout gate: %s [tags %s]" % ("; ".join(r["oracle"])[:500], ",".join(r["scen"]["tags"])[:150]),
                       vcore.replay_file(r))
 
+    # the command-line front end's key set
+    cli = cli_stream(ctx)
+    cli_bad = [(r, cli_judge(r)) for r in cli if cli_judge(r)]
+    for r, why in cli_bad[:3]:
+        ctx.violation("layout gate (command line): " + why,
+                      {"cli_scenario": r["scenario"], "argv": r["argv"], "status": r["status"], "intent": r["intent"]})
+    cli_cov = {"runs": len(cli), "violations": len(cli_bad), "by_class": {}, "by_keyform": {}, "exit_status": {}}
+    for r in cli:
+        for k, v in (("by_class", "%s/%s" % (r["cls"], r["meta"].get("sub"))), ("by_keyform", r["keyform"]), ("exit_status", str(r["status"]))):
+            cli_cov[k][v] = cli_cov[k].get(v, 0) + 1
+
     REL = ("layout_", "no_keys", "extra_key", "key_subset", "other_key", "boundary", "now=", "sweep", "gpg_")
 
     def relevant(r):
@@ -260,6 +273,7 @@ def run(ctx):
                                            "summary link, inspection log. non-trivial = carries a layout_* / key-set / boundary tag or is a "
                                            "sweep case; distinct = different (root file, link dir, keys, clock)",
                                    "model_gap": {"count": gaps},
+                                   "command_line_key_sets": cli_cov,
                                    "single_leaf_sweep": sweep_stats, "oracle_violations": len(bad), "root_format": fmt,
                                    "expiry_boundary_outcomes": dict(sorted(bnd.items())),
                                    "oracle": "on the implementation's verdict alone: every edit of a leaf of the serialised layout "
@@ -270,6 +284,55 @@ def run(ctx):
                                              "signature are rejected"},
                         assumptions=["theorems about Model/Verify.v, Model/Meta.v, Model/Expiry.v; tie: differential run of "
                                      "in_toto_verify incl. a sweep over every leaf of the serialised layout in both formats"])
+
+
+# ------------------------------------------------------------------------------------------------
+# the verifier's key set as the command line assembles it (--layout-keys / --gpg / --verification-keys merged):
+# in-toto-verify run in-process on layouts signed by all / some / none of the supplied keys.  The expectation is the
+# scenario's construction (which keys signed, was the file edited), never the exit status.
+def cli_key_cases(rng, thorough):
+    k = 4 if thorough else 1
+    cases = []
+
+    def add(n=1, **params):
+        for _ in range(n):
+            cases.append({"builder": "verify", "params": dict(params), "seed": rng.getrandbits(32)})
+    for keyform in ("vk", "lk", "vk+lk", "vk+gpg", "gpg"):
+        gpg = "gpg" in keyform
+        for dsse in ((False,) if gpg else (False, True)):
+            add(k, cls="pass", keyform=keyform, dsse=dsse)
+            add(2 * k if "+" in keyform else k, cls="bad_sig", sub="one_missing", keyform=keyform, dsse=dsse)
+            add(k, cls="bad_sig", sub="unsigned", keyform=keyform, dsse=dsse)
+            add(k, cls="bad_sig", sub="wrong_signer", keyform=keyform, dsse=dsse)
+            add(k, cls="extra_key", keyform=keyform, dsse=dsse)
+            if keyform != "vk+gpg":
+                add(k, cls="wrong_key", keyform=keyform, dsse=dsse)
+            add(k, cls="expired", keyform=keyform, dsse=dsse)
+    return cases
+
+
+def cli_judge(rec):
+    """None, or why the run contradicts the property"""
+    it, st = rec["intent"], rec["status"]
+    where = "[%s/%s/%s/%s]" % (rec["cls"], rec["meta"].get("sub"), rec["keyform"], rec["fmt"])
+    if it == "fail" and st == 0:
+        return ("in-toto-verify exited 0 on a layout built to be refused (%s: a supplied key without a valid signature, "
+                "no valid signature at all, or an expired layout) %s" % (rec["cls"], where))
+    if it == "ok" and st != 0:
+        return "in-toto-verify exited %r on an honestly signed, unexpired layout verified with exactly its signers %s" % (st, where)
+    return None
+
+
+def cli_stream(ctx):
+    from harness import c18lib as L
+    ks = L.KeyStore(ctx.work)
+    recs = []
+    try:
+        for case in cli_key_cases(ctx.rng, ctx.thorough()):
+            recs.append(L.run_case(case, os.path.join(ctx.work, "clicase"), ks))
+    finally:
+        ks.close()
+    return recs
 
 
 def _oracle(r, scen, outs, wd):
@@ -287,6 +350,22 @@ def _oracle(r, scen, outs, wd):
 
 
 def replay(ctx, obj):
+    if "cli_scenario" in obj.get("replay", {}):
+        from harness import c18lib as L
+        ks = L.KeyStore(ctx.work)
+        try:
+            rec = L.run_case(obj["replay"]["cli_scenario"], os.path.join(ctx.work, "clicase"), ks)
+        finally:
+            ks.close()
+        print("argv  :", json.dumps(rec["argv"]))
+        print("status:", rec["status"], " built to:", rec["intent"])
+        why = cli_judge(rec)
+        if why:
+            print("  -> " + why)
+            print("VIOLATION property=C01 replay=%s" % obj.get("rerun", "").split()[-1])
+            return 1
+        print("agree")
+        return 0
     if "request" not in obj.get("replay", {}):
         return vcore.replay_obligations(ctx, "C01", obj, PROPS, ("verify", "signatures", "expiry"))
     return vcore.replay(ctx, "C01", obj, oracle=_oracle)
